@@ -5,7 +5,7 @@ VPrims Java overrides), evidence files, known findings, violation reporting.
 
 Exit codes of a check: 0 held / 1 violation (with a VIOLATION line) / 2 tool failure.
 """
-import hashlib
+import glob, hashlib
 import json
 import os
 import re
@@ -98,6 +98,20 @@ def repo_srcs(*rel):
     return [os.path.join(REPO, r) for r in rel]
 
 
+def _definers(symbols):
+    """library files (not tests) that define one of these functions (the library's style puts the name at the start of a line)"""
+    out = []
+    for d in IDIRS:
+        for f in sorted(glob.glob(os.path.join(REPO, d, "*.c"))):
+            try:
+                txt = open(f, errors="replace").read()
+            except OSError:
+                continue
+            if any(re.search(r"^%s\(" % re.escape(sym), txt, re.M) for sym in symbols):
+                out.append(f)
+    return out
+
+
 def build(outdir, name, sources, cpu="all", san=True, wraps=(), libs=(), defs=(), extra=()):
     """Compile `sources` (absolute paths; harness files and files of REPO) into outdir/name."""
     os.makedirs(outdir, exist_ok=True)
@@ -114,6 +128,18 @@ def build(outdir, name, sources, cpu="all", san=True, wraps=(), libs=(), defs=()
     cmd += list(libs) + ["-lrt"]
     t0 = time.time()
     r = sh(cmd, timeout=600)
+    for _ in range(4):
+        # a change to the library may make a file depend on another library file that this harness did not need before:
+        # add the file of the repository that defines the missing symbol and link again
+        if r.returncode == 0:
+            break
+        missing = set(re.findall(r"undefined reference to `(\w+)'", r.stdout or ""))
+        extra_srcs = [f for f in _definers(missing) if f not in sources and f not in cmd]
+        if not missing or not extra_srcs:
+            break
+        log("build of %s: adding %s for %s" % (name, ", ".join(os.path.relpath(f, REPO) for f in extra_srcs), ", ".join(sorted(missing))))
+        cmd = cmd[:cmd.index(out) + 1] + extra_srcs + cmd[cmd.index(out) + 1:]
+        r = sh(cmd, timeout=600)
     if r.returncode != 0:
         raise ToolFailure("harness build failed:\n" + (r.stdout or "")[-6000:])
     log("built %s (%s, %.1fs)" % (name, cpu, time.time() - t0))
